@@ -29,6 +29,8 @@ func checkC09(c *Ctx) {
 	c.drainBeforeEOF()
 	c.everyPacketDecoded()
 	c.flagBitTables()
+	// what goes out has the length Len() says and the bytes the encoder counted (T1 length tables, B14)
+	c.codecLengthTables()
 }
 
 func isConstBool(v ssa.Value, want bool) bool {
